@@ -177,6 +177,13 @@ func (run *c09Run) do(thread int, op string) {
 	case op == "rce":
 		e.Err = c09ErrClass(run.r.CloseWithError(errCustomR))
 		finish()
+	case op == "X":
+		// environment fault: the file under a file-backed pipe stops working (its handle is closed
+		// under the pipe: every later file read or write fails with an I/O error)
+		if run.tmp != nil {
+			run.tmp.Close()
+		}
+		finish()
 	case op == "wcp":
 		e.Err = c09ErrClass(run.w.CloseWithError(io.ErrClosedPipe))
 		finish()
@@ -247,10 +254,21 @@ func (run *c09Run) judge(complete bool) (kind, what string) {
 	if wClosed != nil {
 		werr = c09CloseErr[wClosed.Op]
 	}
+	faultStart := 0
+	for i := range run.events {
+		if run.events[i].Op == "X" && faultStart == 0 {
+			faultStart = run.events[i].Start
+		}
+	}
 	for i := range run.events {
 		e := &run.events[i]
 		afterR := rClosed != nil && e.Start > rClosed.End
 		afterW := wClosed != nil && e.Start > wClosed.End
+		if faultStart != 0 && e.End > faultStart && strings.HasPrefix(e.Err, "other:") && (e.Op[0] == 'W' || e.Op[0] == 'R') {
+			// after the file fault a read or write may fail with the I/O error (it must come back,
+			// and never with wrong bytes: the stream rules above still hold)
+			continue
+		}
 		switch {
 		case e.Op[0] == 'W':
 			k := atoi(e.Op[1:])
@@ -426,6 +444,18 @@ func c09Scenarios(capn int, file bool) []c09Scenario {
 	}
 }
 
+// c09FaultScenarios: the file under a file-backed pipe fails (op X); every call still comes back.
+func c09FaultScenarios(capn int) []c09Scenario {
+	mk := func(name string, th ...[]string) c09Scenario {
+		return c09Scenario{Name: name, Cap: capn, File: true, Threads: th}
+	}
+	return []c09Scenario{
+		mk("w2,file fails,w1,close | r1", []string{"W2", "X", "W1", "wc"}, []string{"R1"}),
+		mk("file fails,w3,w1,close | r2,rclose", []string{"X", "W3", "W1", "wc"}, []string{"R2", "rc"}),
+		mk("w1,w1,close | r1 | environment: file fails", []string{"W1", "W1", "wc"}, []string{"R1"}, []string{"X"}),
+	}
+}
+
 func TestVerif_C09(t *testing.T) {
 	defer ev.Flush("C09")
 	if ev.ReplayFile() != "" {
@@ -456,6 +486,8 @@ func TestVerif_C09(t *testing.T) {
 	scs = append(scs, c09Scenarios(2*BuffSizeAlign, false)[:4]...)
 	// a capacity that is not a power of two (ring arithmetic must not rely on masks)
 	scs = append(scs, c09Scenarios(3*BuffSizeAlign, false)...)
+	// the file under a file-backed pipe fails
+	scs = append(scs, c09FaultScenarios(FileSizeAlign)...)
 	if ev.Thorough() {
 		scs = append(scs, c09Scenarios(FileSizeAlign, true)[:3]...)
 		scs = append(scs, c09Scenarios(3*FileSizeAlign, true)[:2]...)
